@@ -706,12 +706,23 @@ def end_to_end_smoke(rng, n, out):
     while done < n and tries < n * 20:
         tries += 1
         kinds = {}
-        p = {k: rand_pattern(rng, ev, 2) for k in rng.sample(["a", "b", "c"], rng.randint(1, 2))}
-        if not ok_lit(p):
-            continue
-        v = instantiate(rng, p)
-        for _ in range(rng.choice([0, 1, 2])):
-            v = mutate(rng, v, kinds)
+        # parameter names include the UMIM bookkeeping names: a parameter is a parameter
+        names = ["a", "b", "c", "text", "uid", "source_uid", "event_created_at", "action_info_modality"]
+        if rng.random() < 0.25:
+            # regex family: `.` must behave as in re.search without flags (no DOTALL/IGNORECASE/MULTILINE)
+            key = rng.choice(names)
+            pat = rng.choice(["x.y", "x.+y", "^.$", ".", "^x.*y$", "X", "^y"])
+            p = {key: re.compile(pat)}
+            v = {key: rng.choice(["x\ny", "\n", "xzy", "x\n\ny", "xy", "x", "a\ny"])}
+            if rng.random() < 0.3:
+                v["extra"] = 1
+        else:
+            p = {k: rand_pattern(rng, ev, 2) for k in rng.sample(names, rng.randint(1, 2))}
+            if not ok_lit(p):
+                continue
+            v = instantiate(rng, p)
+            for _ in range(rng.choice([0, 1, 2])):
+                v = mutate(rng, v, kinds)
         if not isinstance(v, dict) or not all(isinstance(k, str) for k in v):
             continue
         params = ", ".join(f"{k}={lit(pv)}" for k, pv in p.items())
